@@ -9,16 +9,16 @@ COQ_IMPORTS = ['Base.Str', 'Base.Value', 'Frame.Events']
 RULE = ('cases = pipelines prefix . observer . suffix: prefix of row-wise steps over 1-3 resources (0-120 rows), observer in '
         '{printer, dump_to_path, dump_to_zip, stream, first-run checkpoint, finalizer, update_stats, validate}, suffix incl. steps that '
         'discard rows or whole resources (filter_rows, delete_resource of first/middle/last/all resources, concatenate, join with and '
-        'without source_delete, deduplicate); compared: downstream rows/schemas with and without the observer, what the observer '
+        'without source_delete, deduplicate, a user step that stops reading each resource after two rows); compared: downstream rows/schemas with and without the observer, what the observer '
         'persisted/reported vs the prefix run alone, finalizer call count and position; non-trivial = the suffix discards rows or '
         'resources; distinct = distinct case digest'
         '; round 4: also dump_to_path(force_format=False) with unknown extensions at any position, prefixes that empty the first resource, and an inner join on the emptied resource behind every observer')
 TRUSTED = ['Coq 8.16.1 kernel + vm_compute', 'harness/p05.py oracle (reads back what the observer persisted)',
            'stamps the file dumpers are documented to write into the descriptor are whitelisted (path suffix, format, encoding, dialect, mediatype, profile, temporal format, decimalChar, groupChar, bareNumber, trueValues, falseValues, counters)']
-ASSUMES = ['suffix steps are built-in steps or user steps that drain their input']
+ASSUMES = ['none about later steps: a later step may stop reading a resource early (suffix take2); for the printer that case is the open finding C05.printer_silent_when_downstream_stops_early']
 
 OBS = ['printer', 'dump', 'zip', 'stream', 'checkpoint', 'finalizer', 'finalizer_stats', 'update_stats', 'validate', 'dump_noforce']
-SUFFIX = ['none', 'mutate', 'filter', 'delete_first', 'delete_last', 'delete_all', 'delete_middle', 'concat', 'join_delete', 'join_keep', 'join_inner', 'dedup', 'add_field']
+SUFFIX = ['none', 'mutate', 'filter', 'delete_first', 'delete_last', 'delete_all', 'delete_middle', 'concat', 'join_delete', 'join_keep', 'join_inner', 'dedup', 'add_field', 'take2']
 WHITELIST_RES = {'path', 'format', 'encoding', 'dialect', 'mediatype', 'profile', 'bytes', 'hash', 'count_of_rows'}
 WHITELIST_FIELD = {'format', 'decimalChar', 'groupChar', 'bareNumber', 'trueValues', 'falseValues'}
 WHITELIST_PKG = {'bytes', 'hash', 'count_of_rows', 'profile'}
@@ -43,6 +43,9 @@ def gen_cases(rng, tier):
         cases.append({'kind': 'observer', 'sizes': [3, 5], 'obs': obs, 'suffix': 'join_inner', 'prefix': 'empty_first'})
     for n_ in (1, 3, 7, 30):
         cases.append({'kind': 'observer', 'sizes': [n_], 'obs': 'printer', 'suffix': 'mutate', 'prefix': 'none'})
+    # a later step that stops reading early, behind every observer
+    for obs in OBS:
+        cases.append({'kind': 'observer', 'sizes': [5, 3], 'obs': obs, 'suffix': 'take2', 'prefix': 'none', **({'odd': []} if obs == 'dump_noforce' else {})})
     # runs that abort while rows are flowing: a finalizer placed before the failing step must not fire at all
     for obs in ('finalizer', 'finalizer_stats'):
         for n_, at in ((5, 2), (150, 120), (3, 0)):
@@ -82,10 +85,19 @@ def suffix_steps(case, names):
         if len(names) < 2:
             return []
         return [DF.join(names[0], ['k'], names[1], ['k'], {'cnt': {'aggregate': 'count'}}, mode='inner', source_delete=True)]
+    if s == 'take2':            # a later step that stops reading each resource after two rows (it discards the rest unread)
+        return [eval('lambda rows: _f(rows)', {'_f': _take2})]
     if s == 'dedup':
         return [DF.set_primary_key(['k']), DF.deduplicate()]
     if s == 'add_field':
         return [DF.add_field('z', 'integer', 1)]
+
+
+def _take2(rows):
+    for i, r in enumerate(rows):
+        if i >= 2:
+            break
+        yield r
 
 
 def _rowfn(row):
@@ -326,6 +338,21 @@ def oracle(case, out):
         if out['calls'][0] != out['total_delivered']:
             return 'finalizer fired after %d of %d delivered rows' % (out['calls'][0], out['total_delivered'])
     return None
+
+
+def finding(case, out, failure):
+    # known finding: the printer prints its table when a resource's rows run out; when a later step stops reading the
+    # resource early the printer's generator is abandoned, and only the header has been printed
+    if case.get('obs') == 'printer' and case.get('suffix') == 'take2' and (failure or '').startswith('printer reported') \
+            and out.get('down_same_rows') and out.get('tables', 0) < len(out.get('prefix_counts', [])):
+        if any(n > 2 for n in out.get('prefix_counts', [])):
+            return 'C05.printer_silent_when_downstream_stops_early'
+    return None
+
+
+def witnesses():
+    return [{'kind': 'observer', 'sizes': [5], 'obs': 'printer', 'suffix': 'take2', 'prefix': 'none',
+             'witness_of': 'C05.printer_silent_when_downstream_stops_early'}]
 
 
 def coq_term(case, out):
